@@ -80,8 +80,8 @@ def generate(chk):
       fs[-1] = rng.choice([{'ellipsis': 1}, {'bool': True}])       # mostly exhaustive
     elif r < 0.6 and len(fs) >= 2:
       fs[rng.randrange(len(fs) - 1)] = {'ellipsis': 1}              # malformed: ... not last
-    cases.append({'leaves': leaves, 'filters': fs, 'module': i % 3 == 0})
-  return {'cases': cases}
+    cases.append({'leaves': leaves, 'filters': fs, 'module': i % 3 == 0, 'container': rng.choice(['dict', 'dict', 'dict', 'ordered', 'frozen', 'proxy'])})
+  return {'cases': cases, 'entry_points': True}
 
 
 class Intern:
@@ -172,8 +172,24 @@ def okv(o):
   return o.get('ok') if isinstance(o, dict) and 'ok' in o else None
 
 
+ENTRY_EXPECT = {
+    '...': 'both', 'True': 'both', "'params'": 'params', "('params', 'dropout')": 'both', "Not('params')": 'dropout', 'RngState': 'both', 'Param': 'none', 'False': 'none', 'None': 'none',
+    '()': 'none', 'Nothing()': 'none', 'Any()': 'none', 'All()': 'both', 'Not(None)': 'both', 'Not(...)': 'none', "[None, 'dropout']": 'dropout', "All('params', None)": 'none',
+    'Any(None, False)': 'none', "PathContains('dropout')": 'dropout',
+}
+
+
 def check(chk, payload, obs):
   cases = payload['cases']
+  if len(obs) > len(cases) and 'entry_points' in obs[-1]:
+    want = {'both': ['dropout', 'params'], 'none': [], 'params': ['params'], 'dropout': ['dropout']}
+    for name, res in obs[-1]['entry_points'].items():
+      for form, r in res.items():
+        chk.count({'filter_entry_point': [name, form]}, True)
+        if r.get('ok') != want[ENTRY_EXPECT[name]]:
+          chk.violation('oracle', 'nnx.split_rngs(only=%s) (%s form) splits the streams %s, the filter denotes a predicate selecting %s' % (name, form, r.get('ok', r), want[ENTRY_EXPECT[name]]),
+                        {'filter': name, 'form': form, 'observed': r})
+    obs = obs[:-1]
   it = Intern()
   coq = []
   n_api = 0
@@ -181,6 +197,9 @@ def check(chk, payload, obs):
     fs = c['filters']
     composite = any(k in f for f in fs for k in ('any', 'all', 'not', 'seq'))
     chk.count({'nnx': c}, composite and len(c['leaves']) >= 2)
+    if 'flat_err' in o:
+      chk.violation('oracle', 'a State whose nested levels are held in a %s Mapping is not flattened down to its leaves, so filters cannot select them: %s' % (c.get('container'), o['flat_err']), {'case': c})
+      continue
     order = o['order']
     by_id = {l['id']: l for l in c['leaves']}
     leaves_sorted = [by_id[i] for i in order]
